@@ -96,6 +96,7 @@ def pop_contract(use_escape, times="nat"):
     c.rais("UnexpectedEOF")
     c.rais("MaybeInfiniteLoop")
     c.ens_exc("UnexpectedEOF", "Pos(self)", "position_kept")
+    c.ens_exc("UnexpectedEOF", "lpos(self) == srclen(self)", "only_at_end_of_input")
     c.ens("Pos(self)", "position_kept")
     c.ens("lpos(self) >= old(lpos(self)) + times and lpos(self) <= srclen(self)", "progress")
     c.modifies = [F_POS + ":int", F_LINE + ":int", F_COL + ":int"]
@@ -144,6 +145,7 @@ def pop_callsite_contract():
     notA = "not (" + " or ".join(caseA) + ")"
     c.rais("UnexpectedEOF", only_if=notA)
     c.rais("MaybeInfiniteLoop", only_if=notA)
+    c.ens_exc("UnexpectedEOF", "Pos(self) and lpos(self) == srclen(self)", "at_end_of_input")
     c.modifies = [F_POS + ":int", F_LINE + ":int", F_COL + ":int"]
     c.pure = False
     c.ens("Pos(self)", "position_kept")
@@ -245,7 +247,6 @@ def parser_contracts():
     c.loop(0, invariant=LOOP_INV, havoc=HAV, types={"val": "str", "eof": "bool"}, variant="srclen(self) - lpos(self)")
     out["parse_multi_line_comment"] = c
     c = parser_contract("parse_string_literal", escape=True)
-    c.rais("UnexpectedEOF")          # K1: pop's UnexpectedEOF is not caught here
     c.rais("MaybeInfiniteLoop")
     c.loop(1, invariant=LOOP_INV, havoc=HAV, types={"val": "str", "char": "str"}, variant="srclen(self) - lpos(self)")
     out["parse_string_literal"] = c
@@ -272,7 +273,6 @@ def get_next_token_contract():
     c.req(NO_K7)
     c.rais("UnexpectedEOF")           # K1 (escapes from parse_string_literal / pop)
     c.rais("MaybeInfiniteLoop")       # K1
-    c.rais("RecursionError")          # F7: one Python frame per consecutive bad character (not modelled)
     c.ens("Pos(self)", "position_kept")
     c.ens("implies(isnone(result), lpos(self) == srclen(self))", "none_only_at_end")
     c.ens(f"implies(not isnone(result), lpos(self) > {P0} and lpos(self) <= srclen(self))", "advances")
@@ -280,7 +280,13 @@ def get_next_token_contract():
           "token_position_is_a_true_position")
     c.modifies = [F_POS + ":int", F_LINE + ":int", F_COL + ":int"]
     c.pure = False
-    c.loop(0, invariant=["Pos(self)", f"lpos(self) >= {P0}"], havoc=HAV, variant="srclen(self) - lpos(self)")
+    # loop0: one round per skipped bad character; loop1: splices between tokens
+    c.loop(0, invariant=["Pos(self)", f"lpos(self) >= {P0}", "lpos(self) <= srclen(self)"], havoc=HAV,
+           variant="srclen(self) - lpos(self) + 1", types={"result": "opaque", "char": "optstr", "size": "int"},
+           ghost={"p_iter": "lpos(self)"})
+    c.loop(1, invariant=["Pos(self)", f"lpos(self) >= {P0}", "lpos(self) <= srclen(self)", "lpos(self) >= __p_iter"],
+           havoc=HAV,
+           variant="srclen(self) - lpos(self)", types={"size": "int"})
     c.mustfail("isnone(result)", "never_a_token")
     return c
 
